@@ -25,6 +25,9 @@ def damaged_workspaces(rng, n):
     for i in range(n):
         k = i % 10
         if k == 8:
+            if i % 20 == 18:
+                out.append(Ws(half_typed_workspace(rng), "half-typed"))
+                continue
             out.append(Ws(ill_typed_workspace(rng), "ill-typed"))
             continue
         if k == 9:
@@ -136,6 +139,35 @@ ILL_TYPED = [
     "pub fn shadow{n}(shadow{n}) {{\n  let shadow{n} = shadow{n}(shadow{n})\n  shadow{n}.{k}\n}}",
     "pub fn str{n}(s) {{\n  case s {{\n    \"a\" <> rest -> rest.{k}\n    \"b\" <> _ -> 1\n    _ -> s <> 1\n  }}\n}}",
 ]
+
+
+# declarations as they look while they are being typed: cut right behind a key token, followed by the end of the file or by
+# the next item; the names they (half) declare are used elsewhere in the file and in another module
+HALF_TYPED = [
+    "pub type Alias{n} =", "type Alias{n}(a) =", "pub type Alias{n} = ", "pub type Alias{n}", "pub type Rec{n} {{", "pub type Rec{n} {{\n  Mk{n}(", "pub type Rec{n} {{\n  Mk{n}(size:",
+    "pub const k{n} =", "pub const k{n}: Int =", "const k{n}:", "pub fn f{n}(", "pub fn f{n}(a: ", "pub fn f{n}() ->", "pub fn f{n}() {{", "pub fn f{n}(a) {{\n  let b =",
+    "pub fn f{n}(a) {{\n  case a {{", "pub fn f{n}(a) {{\n  case a {{\n    1 ->", "pub fn f{n}(a) {{\n  use b <-", "pub fn f{n}(a) {{\n  a |>", "pub fn f{n}(a) {{\n  a.",
+    "pub fn f{n}(a) {{\n  fn(", "import", "import m0.{{", "import m0 as", "pub opaque type", "@external(", "pub fn f{n}(a) {{\n  #(a,", "pub fn f{n}(a) {{\n  [a, ..",
+]
+
+
+def half_typed_workspace(rng):
+    n_mod = 2
+    files = []
+    uses = ("pub fn user{n}(x: Alias{n}, y: Rec{n}) -> Alias{n} {{\n  let z: Alias{n} = k{n}\n  f{n}(Mk{n}(1))\n  f{n}\n}}")
+    for m in range(n_mod):
+        parts = []
+        if m == 1:
+            parts.append("import m0\nimport m0.{type Alias0, type Rec1, k0, f1, Mk1}")
+            parts.append("pub fn cross(a: m0.Alias0, b: Alias0) -> m0.Rec1 {\n  m0.k0\n  m0.f1(1)\n  f1\n  Mk1\n  k0\n}")
+        for i in range(rng.randrange(2, 5)):
+            parts.append(uses.format(n=i))
+            parts.append(rng.choice(HALF_TYPED).format(n=i))
+        if rng.random() < 0.5:
+            parts.append(uses.format(n=rng.randrange(3)))
+        files.append((f"/w/p/src/m{m}.gleam", "\n\n".join(parts) + rng.choice(["", "\n", " "])))
+    files.append(("/w/p/gleam.toml", 'name = "p"\n'))
+    return files
 
 
 def ill_typed_workspace(rng):
